@@ -68,11 +68,8 @@ class Session:
                                           quad_order=self.cfg['quad_order'],
                                           pw_exact=self.cfg['pw_exact'],
                                           cache_dir=self.cache_dir)
-        self.refSL = SLm.SingleLayerOperator(mesh,
-                                             quad_order=self.cfg['quad_order'],
-                                             pw_exact=self.cfg['pw_exact'],
-                                             cache_dir=None)
-        self.M0 = self.refM0 = None
+        self.M0 = None
+        self.u0_kind = spec.get('u0', self.cfg['u0'])
         if self.curve in WITH_DOMAIN:
             factory = getattr(IM, self.curve + 'BoundaryRefined')
             # like the driver: one label per (domain, problem); several
@@ -86,12 +83,6 @@ class Session:
                                           quad_int=self.cfg['quad_int'],
                                           cache_dir=self.cache_dir,
                                           problem=problem)
-            self.refM0 = IPm.InitialOperator(bdr_mesh=mesh,
-                                             u0=u0,
-                                             initial_mesh=factory,
-                                             quad_int=self.cfg['quad_int'],
-                                             cache_dir=None,
-                                             problem=problem)
 
     def fresh_ref_sl(self):
         SLm = repo.mod('src.single_layer')
